@@ -147,7 +147,7 @@ func C17(ctx *core.Ctx) {
 			if res.Len() != 1 || fn.Parent() != nil {
 				continue
 			}
-			if b, ok := res.At(0).Type().Underlying().(*types.Basic); !ok || b.Kind() != types.String {
+			if b, ok := res.At(0).Type().Underlying().(*types.Basic); !ok || (b.Kind() != types.String && b.Kind() != types.Uint64) {
 				continue
 			}
 			for _, c := range ssax.Calls(fn) {
@@ -160,7 +160,7 @@ func C17(ctx *core.Ctx) {
 		if len(cands) == 1 {
 			gen = cands[0]
 		} else {
-			ctx.Unresolved("C17.R1", "op-id generator", sprintf("expected one string-returning function drawing from atomic.AddUint64, found %d", len(cands)))
+			ctx.Unresolved("C17.R1", "op-id generator", sprintf("expected one string- or uint64-returning function drawing from atomic.AddUint64, found %d", len(cands)))
 		}
 	}
 	var counter *ssa.Global
